@@ -5,7 +5,7 @@
 (* accept it) and the plain form it takes in an invariant message or a string constant.    *)
 (* A case puts the payload at the end, at the start or in the middle of a harmless text.   *)
 EXTENDS Integers, Sequences, FiniteSets, Json, IOUtils, TLC, SequencesExt
-CONSTANT MaxFragments
+CONSTANTS MaxFragments, MaxPatternFragments
 Fragments ==
   <<[rst |-> <<34>>, plain |-> <<34>>],   \*  1: double quote
     [rst |-> <<34, 34, 34>>, plain |-> <<34, 34, 34>>],   \*  2: three double quotes
@@ -43,8 +43,44 @@ Place(layout, p) == CASE layout = "tail" -> W \o <<32>> \o p
                       [] layout = "mid" -> W \o <<32>> \o p \o <<32>> \o W
 IdSeqs == UNION {[1..k -> 1..NF] : k \in 1..MaxFragments}
 Cases == {[ids |-> ids, layout |-> l, rst |-> Place(l, Cat(ids, "rst")), plain |-> Place(l, Cat(ids, "plain"))] : ids \in IdSeqs, l \in Layouts}
-ASSUME JsonSerialize(IOEnv.VERIF_OUT, SetToSeq(Cases))
-ASSUME PrintT(<<"@@PRINT@@ cases", Cardinality(Cases)>>)
+
+(* Patterns: the same idea for the regular expression of a verification function, which the targets *)
+(* put into string literals, into XSD / JSON schema and (C++) into comments next to the compiled     *)
+(* program. A fragment is regular-expression source denoting n literal characters; a pattern is      *)
+(* padded with z to PatternWidth characters so that all patterns have the shape of the twin's.       *)
+PatternFragments ==
+  <<[re |-> <<34>>, n |-> 1],   \*  1: double quote
+    [re |-> <<39>>, n |-> 1],   \*  2: single quote
+    [re |-> <<92, 92>>, n |-> 1],   \*  3: backslash
+    [re |-> <<92, 42, 47>>, n |-> 2],   \*  4: block comment end
+    [re |-> <<47, 92, 42>>, n |-> 2],   \*  5: block comment start
+    [re |-> <<47, 47>>, n |-> 2],   \*  6: line comment start
+    [re |-> <<60, 33, 45, 45>>, n |-> 4],   \*  7: XML comment start
+    [re |-> <<45, 45, 62>>, n |-> 3],   \*  8: XML comment end
+    [re |-> <<38>>, n |-> 1],   \*  9: ampersand
+    [re |-> <<60>>, n |-> 1],   \* 10: less than
+    [re |-> <<62>>, n |-> 1],   \* 11: greater than
+    [re |-> <<96>>, n |-> 1],   \* 12: backtick
+    [re |-> <<92, 36, 92, 123>>, n |-> 2],   \* 13: template substitution start
+    [re |-> <<92, 110>>, n |-> 1],   \* 14: line feed (as the escape \n)
+    [re |-> <<92, 93, 92, 93, 62>>, n |-> 3],   \* 15: CDATA end
+    [re |-> <<92, 117, 50, 48, 50, 56>>, n |-> 1],   \* 16: LINE SEPARATOR (as the escape \u2028)
+    [re |-> <<92, 120, 48, 48>>, n |-> 1],   \* 17: NUL (as the escape \x00)
+    [re |-> <<32>>, n |-> 1] >>   \* 18: space
+NPF == Len(PatternFragments)
+PatternWidth == 6
+RECURSIVE PCat(_)
+PCat(ids) == IF ids = <<>> THEN <<>> ELSE PatternFragments[Head(ids)].re \o PCat(Tail(ids))
+RECURSIVE PLen(_)
+PLen(ids) == IF ids = <<>> THEN 0 ELSE PatternFragments[Head(ids)].n + PLen(Tail(ids))
+Zs(n) == [i \in 1..n |-> 122]
+PIdSeqs == UNION {[1..k -> 1..NPF] : k \in 1..MaxPatternFragments}
+PatternCases == {[ids |-> ids, re |-> Zs(PatternWidth - PLen(ids)) \o PCat(ids)] : ids \in {x \in PIdSeqs : PLen(x) <= PatternWidth}}
+               \cup {[ids |-> ids, re |-> PCat(ids) \o Zs(PatternWidth - PLen(ids))] : ids \in {x \in PIdSeqs : PLen(x) < PatternWidth}}
+TwinPattern == Zs(PatternWidth)
+
+ASSUME JsonSerialize(IOEnv.VERIF_OUT, [payloads |-> SetToSeq(Cases), patterns |-> SetToSeq(PatternCases), twin_pattern |-> TwinPattern])
+ASSUME PrintT(<<"@@PRINT@@ cases", Cardinality(Cases), Cardinality(PatternCases)>>)
 VARIABLE dummy
 Init == dummy = 0
 Next == UNCHANGED dummy
